@@ -631,7 +631,7 @@ func c20CheckU16(c *Ctx, g *c20Guard, u []uint16) (nontrivial bool) {
 
 // ---- registry values ------------------------------------------------------------------------------
 
-type c20RegRes struct{ s, l, i, b string }
+type c20RegRes struct{ s, l, i, b, str string }
 
 func c20RegRun(ty uint32, d []byte) (res c20RegRes, strs []string, str string, iv uint64) {
 	e := regedit.Entry{Name: "v", Type: ty, Data: d}
@@ -653,7 +653,60 @@ func c20RegRun(ty uint32, d []byte) (res c20RegRes, strs []string, str string, i
 	var bb []byte
 	p = c20Try(func() { bb, err = e.ToBinary() })
 	res.b = c20Out(hx(bb), err, p)
+	// the display form (String() of the build variant without the implant tag) decodes the same value
+	// bytes through the same UTF-16 helpers: same bounds obligation
+	var disp string
+	p = c20Try(func() { disp = fmt.Sprint(e) })
+	res.str = c20Out(c20Ints([]rune(disp)), nil, p)
 	return
+}
+
+// c20RegStringRef is the reference of Entry.String() (device/regedit/v_no_implant.go): the display
+// form of a value, written from the documented value layouts.
+func c20RegStringRef(ty uint32, d []byte) string {
+	var out string
+	switch ty {
+	case 0:
+		out = "" // Name is set by the harness
+	case 4:
+		if len(d) == 4 {
+			out = strconv.FormatUint(uint64(binary.LittleEndian.Uint32(d)), 10)
+		}
+	case 11:
+		if len(d) == 8 {
+			out = strconv.FormatUint(binary.LittleEndian.Uint64(d), 10)
+		}
+	case 3:
+		out = hex.EncodeToString(d)
+	case 7:
+		if len(d) >= 3 {
+			u := c20LEWords(d)
+			if len(u) > 0 && u[len(u)-1] == 0 {
+				u = u[:len(u)-1]
+			}
+			var parts []string
+			from := 0
+			for i, x := range u {
+				if x == 0 {
+					parts = append(parts, string(utf16.Decode(u[from:i])))
+					from = i + 1
+				}
+			}
+			out = strings.Join(parts, ", ")
+		}
+	case 1, 2:
+		if len(d) >= 3 {
+			u := c20LEWords(d)
+			for i, x := range u {
+				if x == 0 {
+					u = u[:i]
+					break
+				}
+			}
+			out = string(utf16.Decode(u))
+		}
+	}
+	return "ok " + c20Ints([]rune(out))
 }
 
 func c20LEWords(d []byte) []uint16 {
@@ -744,6 +797,7 @@ func c20CheckReg(c *Ctx, g *c20Guard, ty uint32, d []byte) (nontrivial bool) {
 	cmp("ToStringList", heap.l, ref.l)
 	cmp("ToInteger", heap.i, ref.i)
 	cmp("ToBinary", heap.b, ref.b)
+	cmp("String", heap.str, c20RegStringRef(ty, d))
 	if g != nil && len(d) <= g.n {
 		for _, place := range []string{"end", "start"} {
 			var m []byte
@@ -764,6 +818,7 @@ func c20CheckReg(c *Ctx, g *c20Guard, ty uint32, d []byte) (nontrivial bool) {
 			chk("ToStringList", gr.l, heap.l)
 			chk("ToInteger", gr.i, heap.i)
 			chk("ToBinary", gr.b, heap.b)
+			chk("String", gr.str, heap.str)
 		}
 		c.Count("reg:guarded")
 	}
